@@ -283,12 +283,16 @@ def load_tree(load_fn, tree):
     return load_fn(text)
 
 
-def plain(v):
-    """Structural view of a loaded value (for comparisons/reports)."""
+def plain(v, dict_kind=True):
+    """Structural view of a loaded value (for comparisons/reports).
+    dict_kind=False: an OrderedDict and a dict with the same items in the
+    same order are the same (Python's == says so too)."""
     import enum
     import pathlib
     from collections import OrderedDict, UserString
-    if isinstance(v, (bool, int, float, str, type(None))):
+    if isinstance(v, float) and v != v:
+        return ('float', 'nan')
+    if isinstance(v, (bool, int, float, str, bytes, type(None))):
         return (type(v).__name__, v)
     if isinstance(v, enum.Enum):
         return ('enum', type(v).__name__, v.name)
@@ -297,15 +301,16 @@ def plain(v):
     if isinstance(v, pathlib.PurePath):
         return ('path', str(v))
     if isinstance(v, list):
-        return ('list', [plain(x) for x in v])
+        return ('list', [plain(x, dict_kind) for x in v])
     if isinstance(v, dict):
-        return ('dict', type(v) is OrderedDict,
-                [(plain(k), plain(x)) for k, x in v.items()])
+        return ('dict', dict_kind and type(v) is OrderedDict,
+                [(plain(k, dict_kind), plain(x, dict_kind))
+                 for k, x in v.items()])
     import datetime
     if isinstance(v, (datetime.date, datetime.datetime)):
         return ('date', v.isoformat())
     d = getattr(v, '__dict__', None)
     if d is not None:
         return ('obj', type(v).__name__,
-                [(k, plain(x)) for k, x in d.items()])
+                [(k, plain(x, dict_kind)) for k, x in d.items()])
     return ('other', type(v).__name__, repr(v))
